@@ -39,9 +39,9 @@ def gateDefHeader (g : GateDefinition) : List Token :=
   cmd .defGate :: identTok g.name :: (varParamsToks g.parameters ++
     ((specQubitParams g.specification).map identTok ++ [.as, gateTypeTok g.specification, .colon]))
 
-theorem lineToks_gateDefinition (F : NumFmt) (g : GateDefinition) (h : specOk g.specification = true) :
+theorem lineToks_gateDefinition' (F : NumFmt) (g : GateDefinition)
+    (hne : specLineList F g.specification ≠ []) :
     lineToks F (.gateDefinition g) = gateDefHeader g ++ specLines F g.specification := by
-  have hne := specLineList_ne F g.specification h
   have e : toks F (.gateDefinition g) = (gateDefHeader g ++ specLines F g.specification) ++ [.newLine] := by
     cases hl : specLineList F g.specification with
     | nil => exact absurd hl hne
@@ -52,6 +52,10 @@ theorem lineToks_gateDefinition (F : NumFmt) (g : GateDefinition) (h : specOk g.
       rw [this]
   unfold lineToks
   rw [e, stripNL_snoc]
+
+theorem lineToks_gateDefinition (F : NumFmt) (g : GateDefinition) (h : specOk g.specification = true) :
+    lineToks F (.gateDefinition g) = gateDefHeader g ++ specLines F g.specification :=
+  lineToks_gateDefinition' F g (specLineList_ne F g.specification h)
 
 /-! ## lengths -/
 
@@ -68,113 +72,241 @@ theorem length_header_lines (F : NumFmt) (g : GateDefinition) :
 
 /-! ## the round trip -/
 
-theorem rt_gateDefinition (F : NumFmt) (d : Nat) (g : GateDefinition)
-    (hp : parsedInstr (.gateDefinition g) = true) (hk : gateSpecKind g.specification = true)
-    (hn : numTokInstr F (.gateDefinition g) = true) (hd : (lineToks F (.gateDefinition g)).length ≤ d) :
-    RTtopL (lineToks F (.gateDefinition g)) d (.gateDefinition g) := by
+/-- every expression of a specification replaced by its normal form -/
+def normSpec : GateSpecification → GateSpecification
+  | .matrix rows => .matrix (rows.map (·.map norm))
+  | .permutation p => .permutation p
+  | .pauliSum s => .pauliSum ⟨s.arguments, s.terms.map fun t => ⟨t.arguments, norm t.expression⟩⟩
+  | .sequence s => .sequence ⟨s.qubits, s.gates.map fun g => { g with parameters := g.parameters.map norm }⟩
+
+/-- what the DEFGATE round trip needs of a specification (parsed or API-built): non-empty lists, finite literals,
+the constructors' argument checks, no placeholder / reserved-word qubit variables -/
+def specApiOk : GateSpecification → Bool
+  | .matrix rows => !rows.isEmpty && rows.all fun r => r.all finiteLits
+  | .permutation p => !p.isEmpty
+  | .pauliSum s =>
+    !s.terms.isEmpty && s.terms.all fun t =>
+      !t.arguments.isEmpty && finiteLits t.expression && t.arguments.all fun ga => s.arguments.contains ga.2
+  | .sequence s =>
+    !s.qubits.isEmpty && !s.gates.isEmpty && s.gates.all fun g =>
+      g.parameters.all finiteLits && g.qubits.all noPlaceholder && g.qubits.all fun q =>
+        match q with
+        | .variable a => s.qubits.contains a
+        | _ => false
+
+theorem specLineList_ne' (F : NumFmt) (spec : GateSpecification) (h : specApiOk spec = true) :
+    specLineList F spec ≠ [] := by
+  cases spec with
+  | matrix rows => simp only [specApiOk, Bool.and_eq_true, Bool.not_eq_true', List.isEmpty_eq_false_iff] at h; simp [specLineList, h.1]
+  | permutation p => simp [specLineList]
+  | pauliSum s => simp only [specApiOk, Bool.and_eq_true, Bool.not_eq_true', List.isEmpty_eq_false_iff] at h; simp [specLineList, h.1]
+  | sequence s => simp only [specApiOk, Bool.and_eq_true, Bool.not_eq_true', List.isEmpty_eq_false_iff] at h; simp [specLineList, h.1.2]
+
+/-- DEFGATE, API form: every expression is read back as its normal form -/
+theorem rt_gateDefinition_norm (F : NumFmt) (d : Nat) (g : GateDefinition)
+    (hp : specApiOk g.specification = true)
+    (hn : numTokSpec F g.specification = true) (hd : (lineToks F (.gateDefinition g)).length ≤ d) :
+    RTtopL (lineToks F (.gateDefinition g)) d (.gateDefinition ⟨g.name, g.parameters, normSpec g.specification⟩) := by
   obtain ⟨name, ps, spec⟩ := g
-  simp only [parsedInstr] at hp
-  simp only [numTokInstr] at hn
-  simp only at hk
-  rw [lineToks_gateDefinition F _ hp] at hd ⊢
+  simp only at hp hn
+  rw [lineToks_gateDefinition' F _ (specLineList_ne' F spec hp)] at hd ⊢
   have hlen : ∀ l ∈ specLineList F spec, l.length ≤ d := by
     intro l hl
     have h1 := length_line_le F spec l hl
     change (gateDefHeader ⟨name, ps, spec⟩ ++ specLines F spec).length ≤ d at hd
     simp only [List.length_append] at hd
     omega
-  have hexpr : ∀ e, parsedExpr e = true → numTokOk F e = true → (printTop F e).length ≤ d →
-      ∀ r, endOk r = true → parseExpressionAt (d + 1) (printTop F e ++ r) = .ok e r := by
+  have hexpr : ∀ e, finiteLits e = true → numTokOk F e = true → (printTop F e).length ≤ d →
+      ∀ r, endOk r = true → parseExpressionAt (d + 1) (printTop F e ++ r) = .ok (norm e) r := by
     intro e he hne hl r hr
-    have := parseExpressionAt_printTop F e (finiteLits_parsedExpr e he) hne (d + 1) r (by omega) hr
-    rwa [norm_parsedExpr e he] at this
+    exact parseExpressionAt_printTop F e he hne (d + 1) r (by omega) hr
   apply rttopL_of_command d _ _ .defGate
     (identTok name :: (varParamsToks ps ++ ((specQubitParams spec).map identTok ++
       .as :: gateTypeTok spec :: .colon :: specLines F spec)))
   · simp [gateDefHeader]
   · intro rest hrest
     simp only [parseCommand, List.append_assoc, List.cons_append]
-    apply parseDefgate_of
-    cases spec with
-    | permutation p =>
-      simp only [specOk, Bool.not_eq_true', List.isEmpty_eq_false_iff] at hp
-      have := spec_permutation (parseExpressionAt (d + 1)) [] p hp rest
-      simpa [specLines, specLineList, typeOf, specQubitParams] using this
-    | matrix rows =>
-      simp only [specOk, Bool.and_eq_true, Bool.not_eq_true', List.isEmpty_eq_false_iff] at hp
-      simp only [gateSpecKind] at hk
-      simp only [numTokSpec] at hn
-      cases hrows : rows with
-      | nil => exact absurd hrows hp.1
-      | cons x xs =>
-        subst hrows
-        have hnum : ∀ row ∈ x :: xs, ∀ e ∈ row, numTokOk F e = true :=
-          fun row hrow e he => List.all_eq_true.mp (List.all_eq_true.mp hn row hrow) e he
-        have := spec_matrix F (parseExpressionAt (d + 1)) [] x xs
-          (fun row hrow => by
-            have := List.all_eq_true.mp hk row hrow
-            simpa using this)
-          hnum
-          (fun row hrow e he => hexpr e (List.all_eq_true.mp (List.all_eq_true.mp hp.2 row hrow) e he)
-            (hnum row hrow e he) (by
-              have h1 := length_sepBy_ge [.comma] (printTop F e) (row.map (printTop F)) (List.mem_map_of_mem he)
-              have h2 := hlen (sepBy [.comma] (row.map (printTop F)))
-                (by simp only [specLineList, List.mem_map]; exact ⟨row, hrow, rfl⟩)
-              omega))
-          rest hrest
-        simpa [specLines, specLineList, typeOf, specQubitParams, List.flatMap_map] using this
-    | pauliSum s =>
-      obtain ⟨pargs, terms⟩ := s
-      simp only [specOk, Bool.and_eq_true, Bool.not_eq_true', List.isEmpty_eq_false_iff] at hp
-      simp only [numTokSpec] at hn
-      cases hterms : terms with
-      | nil => exact absurd hterms hp.1
-      | cons x xs =>
-        subst hterms
-        have hterm : ∀ t ∈ x :: xs, pauliTermOk pargs t = true := fun t ht => List.all_eq_true.mp hp.2 t ht
-        have := spec_pauliSum F (parseExpressionAt (d + 1)) pargs x xs
-          (fun t ht => by
-            have := hterm t ht
-            simp only [pauliTermOk, Bool.and_eq_true, Bool.not_eq_true', List.isEmpty_eq_false_iff] at this
-            exact ⟨this.1.1, this.2⟩)
-          (fun t ht => by
-            have h0 := hterm t ht
-            simp only [pauliTermOk, Bool.and_eq_true] at h0
-            apply hexpr t.expression h0.1.2 (List.all_eq_true.mp hn t ht)
-            have h2 := hlen (pauliLine F t) (by simp only [specLineList, List.mem_map]; exact ⟨t, ht, rfl⟩)
-            simp only [pauliLine, List.length_cons, List.length_append] at h2
-            omega)
-          rest hrest
-        simpa [specLines, specLineList, typeOf, specQubitParams, List.flatMap_map] using this
-    | sequence s =>
-      obtain ⟨sq, gates⟩ := s
-      simp only [specOk, Bool.and_eq_true, Bool.not_eq_true', List.isEmpty_eq_false_iff] at hp
-      simp only [gateSpecKind] at hk
-      simp only [numTokSpec] at hn
-      cases hgates : gates with
-      | nil => exact absurd hgates hp.1.2
-      | cons x xs =>
-        subst hgates
-        have hg1 : ∀ g ∈ x :: xs, g.parameters.all parsedExpr = true := fun g hg => by
-          have := List.all_eq_true.mp hp.2 g hg
-          rw [Bool.and_eq_true] at this
-          exact this.1
-        have hg2 : ∀ g ∈ x :: xs,
-            (g.qubits.all fun q => match q with | .variable a => sq.contains a | _ => false) = true :=
-          fun g hg => by
+    have key : specParser (parseExpressionAt (d + 1)) (specQubitParams spec) (typeOf spec)
+        (specLines F spec ++ .newLine :: rest) = .ok (normSpec spec) (.newLine :: rest) := by
+      cases spec with
+      | permutation p =>
+        simp only [specApiOk, Bool.not_eq_true', List.isEmpty_eq_false_iff] at hp
+        have := spec_permutation (parseExpressionAt (d + 1)) [] p hp rest
+        simpa [specLines, specLineList, typeOf, specQubitParams, normSpec] using this
+      | matrix rows =>
+        simp only [specApiOk, Bool.and_eq_true, Bool.not_eq_true', List.isEmpty_eq_false_iff] at hp
+        simp only [numTokSpec] at hn
+        cases hrows : rows with
+        | nil => exact absurd hrows hp.1
+        | cons x xs =>
+          subst hrows
+          have hrow : ∀ row ∈ x :: xs, row.all finiteLits = true :=
+            fun row hrow => List.all_eq_true.mp hp.2 row hrow
+          have hnum : ∀ row ∈ x :: xs, ∀ e ∈ row, numTokOk F e = true :=
+            fun row hrow e he => List.all_eq_true.mp (List.all_eq_true.mp hn row hrow) e he
+          have := spec_matrix F norm (parseExpressionAt (d + 1)) [] x xs
+            (fun r' => by
+              simp [parseExpressionAt, parse, parseBody, opt, parsePrefix, parseImmediateValue, parseOperand])
+            hnum
+            (fun row hrow' e he => hexpr e (List.all_eq_true.mp (hrow row hrow') e he)
+              (hnum row hrow' e he) (by
+                have h1 := length_sepBy_ge [.comma] (printTop F e) (row.map (printTop F)) (List.mem_map_of_mem he)
+                have h2 := hlen (sepBy [.comma] (row.map (printTop F)))
+                  (by simp only [specLineList, List.mem_map]; exact ⟨row, hrow', rfl⟩)
+                omega))
+            rest hrest
+          simpa [specLines, specLineList, typeOf, specQubitParams, List.flatMap_map, normSpec] using this
+      | pauliSum s =>
+        obtain ⟨pargs, terms⟩ := s
+        simp only [specApiOk, Bool.and_eq_true, Bool.not_eq_true', List.isEmpty_eq_false_iff] at hp
+        simp only [numTokSpec] at hn
+        cases hterms : terms with
+        | nil => exact absurd hterms hp.1
+        | cons x xs =>
+          subst hterms
+          have hterm : ∀ t ∈ x :: xs, (t.arguments ≠ [] ∧ finiteLits t.expression = true) ∧
+              t.arguments.all (fun ga => pargs.contains ga.2) = true := by
+            intro t ht
+            have := List.all_eq_true.mp hp.2 t ht
+            simpa only [Bool.and_eq_true, Bool.not_eq_true', List.isEmpty_eq_false_iff] using this
+          have := spec_pauliSum F norm (parseExpressionAt (d + 1)) pargs x xs
+            (fun t ht => ⟨(hterm t ht).1.1, (hterm t ht).2⟩)
+            (fun t ht => by
+              apply hexpr t.expression (hterm t ht).1.2 (List.all_eq_true.mp hn t ht)
+              have h2 := hlen (pauliLine F t) (by simp only [specLineList, List.mem_map]; exact ⟨t, ht, rfl⟩)
+              simp only [pauliLine, List.length_cons, List.length_append] at h2
+              omega)
+            rest hrest
+          simpa [specLines, specLineList, typeOf, specQubitParams, List.flatMap_map, normSpec] using this
+      | sequence s =>
+        obtain ⟨sq, gates⟩ := s
+        simp only [specApiOk, Bool.and_eq_true, Bool.not_eq_true', List.isEmpty_eq_false_iff] at hp
+        simp only [numTokSpec] at hn
+        cases hgates : gates with
+        | nil => exact absurd hgates hp.1.2
+        | cons x xs =>
+          subst hgates
+          have hg1 : ∀ g ∈ x :: xs, g.parameters.all finiteLits = true := fun g hg => by
             have := List.all_eq_true.mp hp.2 g hg
-            rw [Bool.and_eq_true] at this
-            exact this.2
-        have := spec_sequence F (parseExpressionAt (d + 1)) sq hp.1.1 x xs
-          (fun g hg => List.all_eq_true.mp hk g hg) hg2
-          (fun g hgm e he => hexpr e (List.all_eq_true.mp (hg1 g hgm) e he)
-            (List.all_eq_true.mp (List.all_eq_true.mp hn g hgm) e he) (by
-              have h1 := length_paramsToks_ge F g.parameters e he
-              have h2 := hlen (gateToks F g) (by simp only [specLineList, List.mem_map]; exact ⟨g, hgm, rfl⟩)
-              simp only [gateToks, List.length_append, List.length_cons] at h2
-              omega))
-          rest hrest
-        simpa [specLines, specLineList, typeOf, specQubitParams, List.flatMap_map] using this
+            rw [Bool.and_eq_true, Bool.and_eq_true] at this
+            exact this.1.1
+          have hg3 : ∀ g ∈ x :: xs, g.qubits.all noPlaceholder = true := fun g hg => by
+            have := List.all_eq_true.mp hp.2 g hg
+            rw [Bool.and_eq_true, Bool.and_eq_true] at this
+            exact this.1.2
+          have hg2 : ∀ g ∈ x :: xs,
+              (g.qubits.all fun q => match q with | .variable a => sq.contains a | _ => false) = true :=
+            fun g hg => by
+              have := List.all_eq_true.mp hp.2 g hg
+              rw [Bool.and_eq_true, Bool.and_eq_true] at this
+              exact this.2
+          have := spec_sequence F norm (parseExpressionAt (d + 1)) sq hp.1.1 x xs hg3 hg2
+            (fun g hgm e he => hexpr e (List.all_eq_true.mp (hg1 g hgm) e he)
+              (List.all_eq_true.mp (List.all_eq_true.mp hn g hgm) e he) (by
+                have h1 := length_paramsToks_ge F g.parameters e he
+                have h2 := hlen (gateToks F g) (by simp only [specLineList, List.mem_map]; exact ⟨g, hgm, rfl⟩)
+                simp only [gateToks, List.length_append, List.length_cons] at h2
+                omega))
+            rest hrest
+          simpa [specLines, specLineList, typeOf, specQubitParams, List.flatMap_map, normSpec] using this
+    have e1 : typeOf (normSpec spec) = typeOf spec := by cases spec <;> rfl
+    have e2 : gateTypeTok (normSpec spec) = gateTypeTok spec := by cases spec <;> rfl
+    have h := parseDefgate_of (parseExpressionAt (d + 1)) name ps (specQubitParams spec) (normSpec spec)
+      (specLines F spec ++ .newLine :: rest) (.newLine :: rest) (by rw [e1]; exact key)
+    rw [e2] at h
+    exact h
+
+theorem specApiOk_of_parsed (spec : GateSpecification) (hp : specOk spec = true) (hk : gateSpecKind spec = true) :
+    specApiOk spec = true := by
+  cases spec with
+  | matrix rows =>
+    simp only [specOk, Bool.and_eq_true] at hp
+    simp only [specApiOk, Bool.and_eq_true]
+    refine ⟨hp.1, ?_⟩
+    rw [List.all_eq_true]
+    intro r hr
+    rw [List.all_eq_true]
+    intro e he
+    exact finiteLits_parsedExpr e (List.all_eq_true.mp (List.all_eq_true.mp hp.2 r hr) e he)
+  | permutation p => exact hp
+  | pauliSum s =>
+    simp only [specOk, Bool.and_eq_true] at hp
+    simp only [specApiOk, Bool.and_eq_true]
+    refine ⟨hp.1, ?_⟩
+    rw [List.all_eq_true]
+    intro t ht
+    have := List.all_eq_true.mp hp.2 t ht
+    simp only [pauliTermOk, Bool.and_eq_true] at this
+    simp only [Bool.and_eq_true]
+    exact ⟨⟨this.1.1, finiteLits_parsedExpr _ this.1.2⟩, this.2⟩
+  | sequence s =>
+    simp only [specOk, Bool.and_eq_true] at hp
+    simp only [gateSpecKind] at hk
+    simp only [specApiOk, Bool.and_eq_true]
+    refine ⟨hp.1, ?_⟩
+    rw [List.all_eq_true]
+    intro g hg
+    have h1 := List.all_eq_true.mp hp.2 g hg
+    rw [Bool.and_eq_true] at h1
+    rw [Bool.and_eq_true, Bool.and_eq_true]
+    refine ⟨⟨?_, List.all_eq_true.mp hk g hg⟩, h1.2⟩
+    rw [List.all_eq_true]
+    intro e he
+    exact finiteLits_parsedExpr e (List.all_eq_true.mp h1.1 e he)
+
+theorem normSpec_parsed (spec : GateSpecification) (hp : specOk spec = true) : normSpec spec = spec := by
+  cases spec with
+  | matrix rows =>
+    simp only [specOk, Bool.and_eq_true] at hp
+    have : rows.map (·.map norm) = rows := by
+      have : ∀ l : List (List PExpr), (l.all fun r => r.all parsedExpr) = true → l.map (·.map norm) = l := by
+        intro l hl
+        induction l with
+        | nil => rfl
+        | cons r l ih =>
+          simp only [List.all_cons, Bool.and_eq_true] at hl
+          simp [map_norm_parsed r hl.1, ih hl.2]
+      exact this rows hp.2
+    simp [normSpec, this]
+  | permutation p => rfl
+  | pauliSum s =>
+    obtain ⟨args, terms⟩ := s
+    simp only [specOk, Bool.and_eq_true] at hp
+    have : ∀ l : List PauliTerm, (l.all (pauliTermOk args)) = true →
+        l.map (fun t => (⟨t.arguments, norm t.expression⟩ : PauliTerm)) = l := by
+      intro l hl
+      induction l with
+      | nil => rfl
+      | cons t l ih =>
+        simp only [List.all_cons, Bool.and_eq_true] at hl
+        have ht := hl.1
+        simp only [pauliTermOk, Bool.and_eq_true] at ht
+        simp [norm_parsedExpr _ ht.1.2, ih hl.2]
+    simp [normSpec, this terms hp.2]
+  | sequence s =>
+    obtain ⟨sq, gates⟩ := s
+    simp only [specOk, Bool.and_eq_true] at hp
+    have : ∀ l : List Gate, (∀ g ∈ l, g.parameters.all parsedExpr = true) →
+        l.map (fun g => ({ g with parameters := g.parameters.map norm } : Gate)) = l := by
+      intro l hl
+      induction l with
+      | nil => rfl
+      | cons g l ih =>
+        simp [map_norm_parsed _ (hl g (by simp)), ih (fun g' hg' => hl g' (by simp [hg']))]
+    have hall : ∀ g ∈ gates, g.parameters.all parsedExpr = true := fun g hg => by
+      have := List.all_eq_true.mp hp.2 g hg
+      rw [Bool.and_eq_true] at this
+      exact this.1
+    simp [normSpec, this gates hall]
+
+theorem rt_gateDefinition (F : NumFmt) (d : Nat) (g : GateDefinition)
+    (hp : parsedInstr (.gateDefinition g) = true) (hk : gateSpecKind g.specification = true)
+    (hn : numTokInstr F (.gateDefinition g) = true) (hd : (lineToks F (.gateDefinition g)).length ≤ d) :
+    RTtopL (lineToks F (.gateDefinition g)) d (.gateDefinition g) := by
+  simp only [parsedInstr] at hp
+  simp only [numTokInstr] at hn
+  have := rt_gateDefinition_norm F d g (specApiOk_of_parsed _ hp hk) hn hd
+  rwa [normSpec_parsed _ hp] at this
 
 /-! ## block shape, errors -/
 
@@ -210,9 +342,9 @@ theorem nl_specLine (F : NumFmt) (spec : GateSpecification) (hn : numTokSpec F s
     simp only [numTokSpec] at hn
     exact noNL_of_lineKind F (.gate g) rfl (List.all_eq_true.mp hn g hg)
 
-theorem blockOk_gateDefinition (F : NumFmt) (g : GateDefinition) (hp : specOk g.specification = true)
+theorem blockOk_gateDefinition' (F : NumFmt) (g : GateDefinition) (hp : specLineList F g.specification ≠ [])
     (hn : numTokSpec F g.specification = true) : blockOk (lineToks F (.gateDefinition g)) = true := by
-  rw [lineToks_gateDefinition F g hp]
+  rw [lineToks_gateDefinition' F g hp]
   have e : gateDefHeader g ++ specLines F g.specification =
       joinNL (gateDefHeader g :: (specLineList F g.specification).map (fun l => .indentation :: l)) := by
     rw [← flatMap_joinNL]; rfl
@@ -230,6 +362,10 @@ theorem blockOk_gateDefinition (F : NumFmt) (g : GateDefinition) (hp : specOk g.
     simp only [List.mem_cons, not_or]
     exact ⟨by simp, nl_specLine F _ hn l' hl'⟩
 
+theorem blockOk_gateDefinition (F : NumFmt) (g : GateDefinition) (hp : specOk g.specification = true)
+    (hn : numTokSpec F g.specification = true) : blockOk (lineToks F (.gateDefinition g)) = true :=
+  blockOk_gateDefinition' F g (specLineList_ne F _ hp) hn
+
 theorem firstErr_gateDefinition (g : GateDefinition) (hk : gateSpecKind g.specification = true) :
     firstErr (.gateDefinition g) = none := by
   obtain ⟨name, ps, spec⟩ := g
@@ -244,9 +380,14 @@ theorem firstErr_gateDefinition (g : GateDefinition) (hk : gateSpecKind g.specif
     exact qubitsErr_none _ (List.all_eq_true.mp hk g hg)
   | _ => rfl
 
-theorem lineToks_gateDefinition_head (F : NumFmt) (g : GateDefinition) (hp : specOk g.specification = true) :
+theorem lineToks_gateDefinition_head' (F : NumFmt) (g : GateDefinition)
+    (hp : specLineList F g.specification ≠ []) :
     ∃ t r, lineToks F (.gateDefinition g) = t :: r ∧ startTok t = true := by
-  rw [lineToks_gateDefinition F g hp]
+  rw [lineToks_gateDefinition' F g hp]
   exact ⟨_, _, rfl, rfl⟩
+
+theorem lineToks_gateDefinition_head (F : NumFmt) (g : GateDefinition) (hp : specOk g.specification = true) :
+    ∃ t r, lineToks F (.gateDefinition g) = t :: r ∧ startTok t = true :=
+  lineToks_gateDefinition_head' F g (specLineList_ne F _ hp)
 
 end QV.C02
